@@ -16,7 +16,11 @@
 (*                                                                         *)
 (* Operations (all carry the cap):                                         *)
 (*   pt  PatchTreasures batch: a sequence of <<key, to>> ("in": the patch  *)
-(*       makes the record match, "out": it makes it not match)             *)
+(*       makes the record match, "out": it makes it not match, "keep": it  *)
+(*       does not touch the field the filter reads), with the request's    *)
+(*       CreateIfNotExist (create) and whether InitialMsgpackOnCreate      *)
+(*       matches the filter (seedm): an absent key is then created from    *)
+(*       the seed and patched - absent -> matching consumes budget         *)
 (*   pe  PatchExpiredTreasures(HowMany n): claims expired records in place *)
 (*       (they match afterwards and get a lease)                           *)
 (*   sh  ShiftMatchingTreasures(HowMany n) over the expired records        *)
@@ -100,20 +104,25 @@ Cell(p) ==
   /\ pc[p] = "cells" /\ todo[p] # <<>>
   /\ LET k == Head(todo[p])[1]
          to == Head(todo[p])[2]
-         was == rec[k].m
-         now == to = "in"
+         creates == ~rec[k].live /\ req[p].create
+         \* a record that does not exist does not match; its body starts from the seed
+         was == rec[k].live /\ rec[k].m
+         start == IF creates THEN req[p].seedm ELSE rec[k].m
+         now == CASE to = "in" -> TRUE [] to = "out" -> FALSE [] OTHER -> start
          consume == ~was /\ now
+         status == IF creates THEN "CREATED" ELSE "PATCHED"
      IN
      /\ todo' = [todo EXCEPT ![p] = Tail(todo[p])]
-     /\ IF ~rec[k].live
+     /\ IF ~rec[k].live /\ ~creates
           THEN /\ out' = [out EXCEPT ![p] = Append(out[p], "KEY_NOT_FOUND")]
                /\ UNCHANGED <<rec, budget, last>>
           ELSE IF consume /\ budget[p] <= 0
             THEN /\ out' = [out EXCEPT ![p] = Append(out[p], "CAP_EXCEEDED")]
                  /\ last' = [p |-> p, k |-> k, was |-> was, now |-> now, before |-> budget[p], after |-> budget[p], ok |-> FALSE]
                  /\ UNCHANGED <<rec, budget>>
-            ELSE /\ out' = [out EXCEPT ![p] = Append(out[p], "PATCHED")]
-                 /\ rec' = [rec EXCEPT ![k].m = now]
+            ELSE /\ out' = [out EXCEPT ![p] = Append(out[p], status)]
+                 /\ rec' = [rec EXCEPT ![k] = IF creates THEN [live |-> TRUE, m |-> now, x |-> FALSE, e |-> FALSE]
+                                                ELSE [rec[k] EXCEPT !.m = now]]
                  /\ budget' = [budget EXCEPT ![p] = IF consume THEN budget[p] - 1 ELSE budget[p]]
                  /\ last' = [p |-> p, k |-> k, was |-> was, now |-> now, before |-> budget[p],
                              after |-> IF consume THEN budget[p] - 1 ELSE budget[p], ok |-> TRUE]
